@@ -139,7 +139,16 @@ func main() {
 	jsonOut := flag.String("json", "", "JSON dump (default: <out> with .json)")
 	benignPath := flag.String("benign", "", "allow-list (default: benign.txt next to the translator sources)")
 	dump := flag.String("dump", "", "print the accesses of one wrapper (debug)")
+	golite := flag.String("golite", "", "second translator: write the GoLite terms of -funcs to this Coq file and exit")
+	glFuncs := flag.String("funcs", "", "with -golite: comma separated CoqName=pkgdir.[Recv.]Func")
 	flag.Parse()
+	if *golite != "" {
+		if err := goliteMain(*repo, *golite, *glFuncs); err != nil {
+			fmt.Fprintln(os.Stderr, "golite:", err)
+			os.Exit(1)
+		}
+		return
+	}
 	if *benignPath == "" {
 		exe, _ := os.Executable()
 		*benignPath = filepath.Join(filepath.Dir(filepath.Dir(exe)), "benign.txt")
